@@ -330,7 +330,7 @@ def run(ctx):
         raise MachineryError("class table: expected 28 shapes, got %d" % len(shapes))
 
     # ------------------------------------------------------------ 2a. generate + compile the real mocks
-    chosen = choose_classes(ctx, classes, None if thorough and os.environ.get("C04_ALL_CLASSES") else (4 if thorough else 2))
+    chosen = choose_classes(ctx, classes, None if thorough and os.environ.get("C04_ALL_CLASSES") else (3 if thorough else 2))
     only = None
     if getattr(ctx, "replay", None):
         # --replay <file>: re-run every exported history of the replay's shape on the replay's class (all 8 option sets)
